@@ -13,6 +13,13 @@ pub fn snapshot(b: &Board) -> (Vec<Option<(Piece, Color)>>, Color, u8, u64, u8, 
      b.current_position_hash(), b.max_seen_position_count())
 }
 
+/// the position only (everything but the repetition count the game API maintains)
+#[allow(dead_code)]
+pub fn snapshot_position(b: &Board) -> (Vec<Option<(Piece, Color)>>, Color, u8, u64, u8, u8, u64) {
+    let s = snapshot(b);
+    (s.0, s.1, s.2, s.3, s.4, s.5, s.6)
+}
+
 pub struct Lcg(pub u64);
 impl Lcg {
     pub fn next(&mut self) -> u64 {
